@@ -293,8 +293,10 @@ def gen_c11(rng, tier):
     maxoff = 10 if tier == 'quick' else 24
     for fam in FAM:
         lst = byfam.get(fam, [])
-        rng.shuffle(lst)
-        # always the smallest builds first (n small = small image): every state class appears among the first builds of the catalogue
+        if tier == 'quick' and len(lst) > per:
+            # fixed positions of the catalogue (a small non-empty state and one from the middle): the quick tier must meet the same
+            # states whatever the seed, which only varies the item values; the thorough tier enumerates every catalogue entry
+            lst = [lst[2], lst[len(lst) // 2]]
         for k, args in enumerate(lst[:per]):
             ops = [build_op(fam, args)]
             paths = [0, 1] + ([2] if fam in HAS_WRAP else []) + ([3] if tier == 'thorough' else [])
@@ -303,6 +305,24 @@ def gen_c11(rng, tier):
             for p in paths:
                 ops.append([5, 0, p, 0, maxoff])
             cases.append(dict(id='tr%d_%s' % (k, fam), ops=ops, tags=[fam], fam=fam))
+    return cases + gen_hostile()
+
+def le32(x):
+    return [(x >> (8 * i)) & 0xff for i in range(4)]
+
+# hand-made images that no single-byte mutation of a valid image reaches (name, family, prototype build args, image)
+HOSTILE = [
+    ('hll_list_compact_count_9', 'hll', [10, 0, 0, 3, 5, 0, 0],
+     [2, 1, 7, 10, 3, 8, 9, 0] + sum([le32(0x04000000 + 64 * i + 1) for i in range(9)], [])),          # LIST mode, compact flag, 9 coupons for an 8-slot list
+    ('hll_list_compact_count_255', 'hll', [10, 0, 0, 3, 5, 0, 0],
+     [2, 1, 7, 10, 3, 8, 255, 0] + sum([le32(0x04000000 + 64 * i + 1) for i in range(255)], [])),
+]
+
+def gen_hostile():
+    cases = []
+    for name, fam, args, img in HOSTILE:
+        ops = [build_op(fam, args), [0xd, 0, 0] + img, [0xd, 0, 1] + img]
+        cases.append(dict(id='hostile_' + name, ops=ops, tags=[fam, 'hostile'], fam=fam, hostile=name))
     return cases
 
 def parse_loop(R, F):
@@ -323,8 +343,12 @@ def short_where(d):
     kind, _, where = d.partition(' @ ')
     parts = where.split(' ')
     fn = parts[-1] if len(parts) > 1 else (parts[0].split(':')[0] if parts and parts[0] else '')
-    kind = re.sub(r'0x[0-9a-fA-F]+|\d+', 'N', kind or 'unknown')      # addresses, shift counts, sizes: not part of the signature
+    kind = re.sub(r'0x[0-9a-fA-F]+|-?\d+', 'N', kind or 'unknown')      # addresses, shift counts, sizes: not part of the signature
     kind = kind.replace(' ', '_')[:70]
+    # how ASan names an access outside the block (overflow / use-after-free / SEGV / unknown-crash, READ or WRITE) depends on what happens to
+    # lie at the wild address, i.e. on the heap layout of the run: one class
+    if not kind.startswith('ubsan:') and kind not in ('leak', 'assert', 'unknown'):
+        kind = 'invalid-memory-access'
     return kind, fn
 
 def oracle_c11(case, irecs, mrecs):
@@ -340,6 +364,20 @@ def oracle_c11(case, irecs, mrecs):
                 fails.append(dict(sig='c11_build_refused:%s' % fam, what='the harness could not build the object', op_index=i))
             elif len(R) > 2:
                 size = R[2]
+            continue
+        if op[0] == 0xd:
+            path = PATHS.get(op[2], str(op[2]))
+            if len(R) < 12:
+                continue
+            total, counts, truncated, offs, diag = parse_loop(R, ftext(irecs[i]))
+            name = case.get('hostile') or ('image_%d_bytes' % (len(op) - 3))
+            for idx, cls in offs:
+                if cls == 2:
+                    continue
+                kind, fn = short_where(diag.get(idx, '')) if cls in (10, 12) else ('', '')
+                fails.append(dict(sig='c11_hostile_%s:%s:%s:%s' % (CLS.get(cls, 'class%d' % cls), fam, path, name) + ((':' + kind + ':' + fn) if kind else ''),
+                                  what='%s reader of %s given the hand-made image %s (%d bytes: %s...): %s %s %s' % (path, fam, name, len(op) - 3, ' '.join('%02x' % b for b in op[3:15]),
+                                       CLS.get(cls, cls), kind, fn), op_index=i))
             continue
         if op[0] not in (4, 5):
             continue
@@ -484,13 +522,17 @@ def oracle_c10(case, irecs, mrecs):
                     if got.get(k) != v:
                         fails.append(dict(sig='c10_content_changed:%s' % tag, what='%s: %s = %s, expected %s' % (name, k, got.get(k), v), op_index=i))
         elif op[0] == 0xc:
-            if R not in ([1], [3]):
+            # a written image can only be compared with the baseline image when the history still produces the recorded content (otherwise the
+            # sketch algorithm changed, which is not a layout matter and is judged by the family's own property)
+            same_content = True
+            for j, op2 in enumerate(case['ops']):
+                if op2[0] == 7 and j < len(irecs) and ble is not None:
+                    same_content = (irecs[j]['R'][1:] == ble['obs'])
+            if same_content and R not in ([1], [3]):
                 fails.append(dict(sig='c10_layout_changed:%s' % fam, what='image written by the current tree for %s %s differs from the image the baseline release wrote for the same history (%s)' %
                                   (fam, case['ops'][0][3:], 'different length' if R == [-2] else 'different bytes'), op_index=i))
         elif op[0] == 7:
             exp = case.get('expected')
-            if exp is not None and R[1:] != exp:
-                fails.append(dict(sig='c10_behaviour_changed:%s' % fam, what='the same history now produces different observable content than when the baseline was recorded (%s %s)' % (fam, case['ops'][0][3:]), op_index=i))
             if exp is not None and R[1:] == exp:
                 bad = doc_decode_check(fam, case.get('image'), exp)
                 if bad:
@@ -508,8 +550,7 @@ def oracle_c10(case, irecs, mrecs):
 
 RULE_C10 = ('(a) the 15 reference images shipped under */test/*.sk are read through bytes, stream and wrap readers: all paths agree, the stream reader consumes exactly the file, the content equals the '
             'content recorded from the pinned commit and the facts in the file names (k, n); (b) a baseline corpus of images of every type/state class written by the pinned commit is re-read by '
-            'the current tree (content = recorded content), the current tree writes byte-identical images for the same histories (hash-table order canonicalised), the same histories give the same '
-            'observable content; (c) images in older formats (theta serial versions 1 and 2, tuple legacy, t-digest reference big-endian formats) synthesised from the documented layouts are read back '
+            'the current tree (content = recorded content), the current tree writes byte-identical images for the same histories (hash-table order canonicalised; compared when the history still yields the recorded content); (c) images in older formats (theta serial versions 1 and 2, tuple legacy, t-digest reference big-endian formats) synthesised from the documented layouts are read back '
             'with the same content; (d) decoders written in Python from the layout comments decode the baseline images of count-min, KLL, Bloom, t-digest, VarOpt, EBPPS, density, REQ, HLL list/set/array '
             'and recover the content the API reports; non-trivial = every case')
 
